@@ -90,6 +90,15 @@ Theorem C04_undecodable_does_not_block :
     r_pc (run cfg sched (init cfg script sp l0)) <> RD_Dead.
 Proof. exact reader_alive. Qed.
 
+(** Device.put_message reads the message filter ONCE (repaired): for EVERY configuration, script
+    (including filter resets: send_message without filter on a virtual device stores None) and
+    schedule, the reader thread is never at a second filter load and never dies. *)
+Theorem C04_reader_never_dies :
+  forall cfg script sp l0 sched,
+    let s := run cfg sched (init cfg script sp l0) in
+    r_pc s <> RD_Dead /\ (forall m, r_pc s <> RD_P P6 m).
+Proof. exact reader_never_dies. Qed.
+
 (** 5. Virtual devices (VirtualDevice.send_message: handler run synchronously by the caller
     under the device's lock): the statements above hold with [virt cfg = true]; spelled out
     for the notifications. *)
